@@ -137,6 +137,11 @@ def rule_ownership(rep: Report, repo: Repo, rule: str) -> None:
             for e in ems:
                 if e is dirs[0] or e.recv == WRITER:
                     continue
+                if e.method == "option" and e.loop is not None and e.args and is_const(e.args[0]):
+                    rep.bad(rule, where(c), f"option({show(e.args[0])}, ...) inside a loop",
+                            f"the option `{show(e.args[0])}` can be emitted several times on one directive: reST rejects duplicate options "
+                            f"and the whole directive (with the doc text nested in it) is replaced by an error",
+                            witness="cpp_attr(C colors red green blue)")
                 if e.method == "process":
                     ok = len(e.args) == 1 and e.args[0] == top and e.recv[0] == "elem"
                     rep.check(ok, rule, where(c), f"{show(e.recv)}.process({show(e.args[0])[:40] if e.args else ''})",
